@@ -196,6 +196,62 @@ fn hostile(known_f1: bool, f1_hits: &mut u64) -> Result<u64, String> {
     Ok(n)
 }
 
+/// array sizes, loop trip counts and the number of parties follow the constants: programs whose sizes are constant
+/// expressions over two external usize values, compared with the same program with the sizes written as literals
+fn sizes(rng: &mut Rng, rounds: u64) -> Result<u64, String> {
+    let usize_ty = TYPES.iter().copied().find(|t| t.name == "usize").unwrap();
+    let mut n = 0;
+    let exprs: [(&str, fn(u64, u64) -> u64); 6] = [
+        ("PARTY_0::V", |a, _| a),
+        ("max(PARTY_0::V, PARTY_1::V)", |a, b| a.max(b)),
+        ("min(PARTY_0::V, PARTY_1::V)", |a, b| a.min(b)),
+        ("PARTY_0::V + PARTY_1::V", |a, b| a + b),
+        ("max(PARTY_0::V, PARTY_1::V) - min(PARTY_0::V, PARTY_1::V) + 1usize", |a, b| a.max(b) - a.min(b) + 1),
+        ("min(PARTY_0::V + 2usize, PARTY_1::V)", |a, b| (a + 2).min(b)),
+    ];
+    for round in 0..rounds {
+        let (a, b) = (1 + rng.below(5) as u64, 1 + rng.below(5) as u64);
+        let (text, f) = exprs[(round as usize) % exprs.len()];
+        let size = f(a, b);
+        if size == 0 || size > 9 { continue; }
+        let cs = consts(usize_ty, &[a as i128, b as i128]);
+        // (1) one party per array element, array size and loop trip count = N
+        let src = format!("const N: usize = {text};\npub fn main(x: [u8; N]) -> u16 {{\n    let mut s = 0u16;\n    for e in x {{ s = s + (e as u16) }}\n    let a = [3u16; N];\n    for e in a {{ s = s + e }}\n    s\n}}");
+        let lit_src = src.replace("const N: usize = ", "const UNUSED__: usize = ").replace("; N]", &format!("; {size}]"));
+        let lit_src = lit_src.lines().skip(1).collect::<Vec<_>>().join("\n");
+        let with_consts = catch_unwind(AssertUnwindSafe(|| garble_lang::compile_with_constants(&src, cs.clone())));
+        let prg = match with_consts {
+            Err(_) => return Err(format!("compile_with_constants panics for\n{src}\nwith PARTY_0::V = {a}, PARTY_1::V = {b}")),
+            Ok(Err(e)) => return Err(format!("well-formed size constants are rejected: {e:?}\n{src}\nwith PARTY_0::V = {a}, PARTY_1::V = {b}")),
+            Ok(Ok(p)) => p,
+        };
+        let lit_prg = garble_lang::compile(&lit_src).map_err(|e| format!("the literal-substituted program does not compile: {e:?}\n{lit_src}"))?;
+        let shape: Vec<usize> = prg.circuit.input_lengths().collect();
+        if shape != vec![8usize; size as usize] {
+            return Err(format!("the number of parties / their sizes do not follow the constant: input_gates = {shape:?}, expected {size} x 8 bits\n{src}\nwith PARTY_0::V = {a}, PARTY_1::V = {b}"));
+        }
+        if lit_prg.circuit.input_lengths().collect::<Vec<usize>>() != shape {
+            return Err(format!("shape differs from the literal-substituted program: {:?} vs {shape:?}\n{src}", lit_prg.circuit.input_lengths().collect::<Vec<usize>>()));
+        }
+        for trial in 0..4u64 {
+            let inputs: Vec<Vec<bool>> = (0..size).map(|k| { let v = ((k * 37 + trial * 11 + a) % 200) as u8; (0..8).map(|i| (v >> (7 - i)) & 1 == 1).collect() }).collect();
+            let expected: u64 = (0..size).map(|k| (k * 37 + trial * 11 + a) % 200).sum::<u64>() + 3 * size;
+            let out = prg.circuit.eval(&inputs);
+            let out2 = lit_prg.circuit.eval(&inputs);
+            if out[0] != out2[0] || out[161..] != out2[161..] {
+                let d = |o: &Vec<bool>| format!("panic={} value={}", o[0], decode(Ty { name: "u16", bits: 16, signed: false }, &o[161..]));
+                return Err(format!("outputs differ from the literal-substituted program: with constants {} / with literals {} (expected {expected})\n{src}\n--- literal program:\n{lit_src}\nwith PARTY_0::V = {a}, PARTY_1::V = {b}", d(&out), d(&out2)));
+            }
+            let got = decode(Ty { name: "u16", bits: 16, signed: false }, &out[161..]) as u64;
+            if out[0] || got != expected {
+                return Err(format!("loop trip counts do not follow the constant: result {got} (panic {}), expected {expected}\n{src}\nwith PARTY_0::V = {a}, PARTY_1::V = {b}", out[0]));
+            }
+        }
+        n += 1;
+    }
+    Ok(n)
+}
+
 pub fn search(args: &[String]) -> i32 {
     let seed = arg_u64(args, "--seed", 1);
     let random = arg_u64(args, "--random", 600);
@@ -228,6 +284,13 @@ pub fn search(args: &[String]) -> i32 {
             }
         }
     }
+    let size_cases = match sizes(&mut rng, 12 + random / 50) {
+        Ok(k) => k,
+        Err(w) => {
+            write_out(args, &format!("kind: c12-consts\nseed: {seed}\nobserved: {w}\n"));
+            return 3;
+        }
+    };
     let known_f1 = crate::util::arg(args, "--known").map(|k| k.split(',').any(|x| x == "C12-F1")).unwrap_or(false);
     let mut f1_hits = 0u64;
     match hostile(known_f1, &mut f1_hits) {
@@ -236,7 +299,7 @@ pub fn search(args: &[String]) -> i32 {
                 println!("known-finding: C12-F1 cases={f1_hits} example=PARTY_0::A given as 1u8 for a u16 constant");
             }
             println!("stats-json: {{\"evaluations\": {n}, \"distinct_nontrivial\": {compared}, \"rule\": \"random const expressions (depth <= 3: external values, literals, min, max, +, -) over 9 integer types with boundary and small random external values; non-trivial = no intermediate result leaves the constant's type (except 64-bit, where wrapping is compared)\", \"samples\": []}}");
-            println!("c12 search: {n} constant expressions ({compared} compared with substitution semantics) and {h} missing / mistyped / extra constant cases agree");
+            println!("c12 search: {n} constant expressions ({compared} compared with substitution semantics), {size_cases} programs whose array sizes / loop trip counts / party counts are constant expressions (compared with literal substitution) and {h} missing / mistyped / extra constant cases agree");
             0
         }
         Err(w) => {
